@@ -169,6 +169,39 @@ CHECKS = {
         "to the request, right-handed when only the normal is given, aligned with / containing L for top/side.",
         "Trusted: numpy linear algebra. Overall vector lengths bounded to 10^+-60 (squared length representable).",
         "DESIGN.md section 3 C18"),
+    "C16": (
+        "PBT with membership computed in cgs by the independent unit engine; exact-boundary class on integer data "
+        "in one unit, tolerant class elsewhere; deep snapshot of the input for immutability",
+        "Generated Datasets (mesh / particle / position-less groups of equal and different length, Arrays and "
+        "Vectors, 0-200 rows) are cut with spheres and boxes whose origin and size come in independent length "
+        "units; the result must contain exactly the groups with a member inside, each equal to the input group "
+        "indexed by the oracle mask (all members, units, names, order), meta carried over, input untouched, no "
+        "shared buffers.",
+        "Trusted: vlib/unitmodel.py. Rows within 1e-9 of the boundary are judged only when all quantities are "
+        "integers in one unit.",
+        "DESIGN.md section 3 C16"),
+    "C03": (
+        "PBT over generated AMR tilings, origins, orientations, windows and resolutions; oracle = brute-force "
+        "point location of every pixel's sample point with an epsilon band on faces; metamorphic re-runs under "
+        "other thread counts and row permutations",
+        "For each generated map every pixel's sample point (rebuilt from the returned coordinates) is located by "
+        "brute force over all cells: strictly inside -> that cell's value, touching nothing -> masked, on a face -> "
+        "any touching cell or masked; scalar layers, vector norms and 'vec' layers (projections on u, v and "
+        "in-plane magnitude); the pixel grid must be the requested window; 1/16/3 threads and permuted rows must "
+        "agree on decided pixels. Bounded to <=800 cells and <=24x24 pixels.",
+        "Trusted: get_direction for letter/normal orientations (decided by C18); numpy brute force. Thread "
+        "schedules are sampled, not enumerated.",
+        "DESIGN.md section 3 C03, 2.6, 2.7"),
+    "C11": (
+        "PBT extending C03's generator with thickness, depth resolution and reductions; oracle = numpy's own "
+        "reduction over the brute-force located column with NaN for missing samples",
+        "Thick maps of generated 3-D meshes (slabs thinner than cells at ~40%, dz up to the domain, depth "
+        "resolution explicit or default, eight reductions) are compared per pixel with numpy's reduction over "
+        "the column of located samples, scaled by the depth step and the position unit for sum/nansum; mask must "
+        "follow numpy's NaN semantics; the default depth resolution is inferred among the <=2 admissible values.",
+        "Trusted: numpy reductions and brute-force location. Columns with a face-ambiguous sample are not "
+        "judged; 2-D meshes (no normal direction) are outside the domain; default depth bounded to 48 samples.",
+        "DESIGN.md section 3 C11"),
 }
 
 NOT_APPLICABLE = []
